@@ -36,7 +36,11 @@ Inductive ev :=
 | Dgram (t : Z) (sendok : bool) (* udp server getConn for an existing peer: CheckExpirations(t + slack), then Notify unless closed *)
 | Frag (t : Z)                  (* stream connection (tcp/client/session.go Run): a socket read at t returned bytes after
                                    which processBuffer decoded no complete message (ErrShortRead, or fewer bytes than the
-                                   header announces): the bytes are buffered, Notify is NOT called *).
+                                   header announces): the bytes are buffered, Notify is NOT called *)
+| Sent (t : Z)                  (* the LOCAL endpoint transmitted a message at t (udp/client/conn.go WriteMessage ->
+                                   writeMessage / writeMessageAsync, Do; tcp/client/conn.go WriteMessage; a notification,
+                                   a request, a confirmable message whose acknowledgement never comes): the write path
+                                   does not touch the monitor -- no Notify, no OnActive *).
 
 Inductive obs := Cancel (g : Z) | Ping (g : Z) | PingFail (g : Z) | Close.
 
@@ -90,6 +94,7 @@ Definition step (c : cfg) (s : st) (e : ev) : st * list obs :=
       let '(s1, o) := check c s (t + slack) ok in
       if closed s1 then (s1, o) else (notify c s1 t, o)
   | Frag _ => (s, [])
+  | Sent _ => (s, [])
   end.
 
 Fixpoint run (c : cfg) (s : st) (h : list ev) : list (ev * list obs) :=
@@ -103,6 +108,43 @@ Fixpoint final (c : cfg) (s : st) (h : list ev) : st :=
   | [] => s
   | e :: r => final c (fst (step c s e)) r
   end.
+
+(* ---- several connections made from ONE option value ----------------------------
+   options/commonOptions.go: WithInactivityMonitor / WithKeepAlive (their Apply methods) store a
+   closure in cfg.CreateInactivityMonitor; every call of the closure -- one per
+   connection: udp/server getOrCreateConn "monitor := s.cfg.CreateInactivityMonitor()",
+   tcp/server, every client built from the cfg -- runs inactivity.NewKeepAlive and
+   inactivity.NewWithOnActive afresh.  So each connection owns a whole [st] (stamp,
+   failure count, ping generation, cancel slot); the connections share only the
+   immutable [cfg].  An event of the system names the connection it happens on. *)
+Definition mev := (nat * ev)%type.
+
+Fixpoint upd {A : Type} (i : nat) (x : A) (l : list A) : list A :=
+  match l, i with
+  | [], _ => []
+  | _ :: r, O => x :: r
+  | y :: r, S j => y :: upd j x r
+  end.
+
+Definition mstep (c : cfg) (ss : list st) (me : mev) : list st * list obs :=
+  match nth_error ss (fst me) with
+  | None => (ss, [])
+  | Some s => let '(s1, o) := step c s (snd me) in (upd (fst me) s1 ss, o)
+  end.
+
+Fixpoint mrun (c : cfg) (ss : list st) (h : list mev) : list (mev * list obs) :=
+  match h with
+  | [] => []
+  | me :: r => let '(ss1, o) := mstep c ss me in (me, o) :: mrun c ss1 r
+  end.
+
+(* connection i is created at (t0s !! i) *)
+Definition minit (t0s : list Z) : list st := map init t0s.
+
+(* a housekeeping round (udp/server handleInactivityMonitors over getConns(),
+   pkg/connections CheckExpirations over copyConnections(): both iterate over a Go
+   map) ticks the connections one after the other, in SOME order, with the same now *)
+Definition round (order : list nat) (t : Z) (ok : bool) : list mev := map (fun i => (i, Tick t ok)) order.
 
 (* ---- stream connections, byte level -------------------------------------------
    tcp/client/session.go Run: for { processBuffer(buffer); n := Read(readBuf); buffer.Write(readBuf[:n]) }.
